@@ -638,7 +638,7 @@ REQUIRED = {
     'C08': ['idle_longest_decided', 'passed_gate', 'entered_group', 'left_group_through_entry_path'],
     'C17': ['full_batch_emitted', 'batch_unpacked', 'partial_batch_waiting', 'history_reached_contained_part', 'empty_batch_input'],
     'C13': ['failure_occurred', 'failure_lost_a_part', 'failure_while_down_with_part', 'repeated_shutdown', 'repeated_restore',
-            'restored', 'utilization_accumulated', 'work_order_finished', 'work_order_in_progress'],
+            'restored', 'utilization_accumulated', 'work_order_finished', 'work_order_in_progress', 'postponed_failure_struck'],
 }
 
 
